@@ -100,6 +100,8 @@ pub enum Op {
     /// get / contains_key of one of the keys inserted by earlier bursts
     GetFresh { sel: u16 },
     ContainsFresh { sel: u16 },
+    /// invalidate the `n` most recently burst-inserted keys in a row, without sync
+    BurstInvalidate { n: u32 },
     /// open an iterator, take `after` items, advance the clock by `ns`, take the rest
     IterAdvance { after: u8, ns: u64 },
 }
